@@ -11,7 +11,7 @@ through the public API, pages are read by KDUMP_KPHYSADDR and KDUMP_MACHPHYSADDR
 addresses converted with addrxlat_fulladdr_conv, against XcCoreModel.
 Search: every answer of the implementation is judged by the extracted *spec* (engine
 "xen-spec": position in the page list)."""
-from .. import core
+from .. import core, linesrun
 
 M64 = (1 << 64) - 1
 ADDRESSABLE = 1 << 52            # frames below this have a 64-bit address with 4 KiB pages
@@ -128,7 +128,7 @@ def gen_e2e_case(rng):
 def run_both(run, exe, lines, tag):
     cf = run.casefile("xen-%s.txt" % tag, lines)
     model = core.run_model("xen", cf)
-    impl, crashes = core.run_impl_lines(exe, run.work, lines)
+    impl, crashes = linesrun.run_impl_lines(exe, run.work, lines, timeout=5 if len(lines) == 1 else (60 if run.tier == 'quick' else 900))
     sl = ["%s | %s" % (l, o) for l, o in zip(lines, impl)]
     ok_idx = [i for i, o in enumerate(impl) if not (o.startswith("CRASH") or o == "NOT-RUN" or o == "BAD-CASE")]
     verd = core.run_model("xen-spec", run.casefile("xen-%s-spec.txt" % tag, [sl[i] for i in ok_idx]))
@@ -177,7 +177,11 @@ def report(run, exe, line):
     if kind0 is None:
         run.count("unreproducible-disagreement")
         return
-    small = shrink(run, exe, line, kind0)
+    hang = False
+    if kind0 == "crash":
+        _, _, cr, _ = run_both(run, exe, [line], "one")
+        hang = any(v[0] == "timeout" for v in cr.values())
+    small = line if hang else shrink(run, exe, line, kind0)
     model, impl, crashes, spec = run_both(run, exe, [small], "one")
     replay = {"engine": "xen", "case": small, "model": model[0], "implementation": impl[0],
               "spec_verdict": spec.get(0, "ok"),
